@@ -1516,4 +1516,16 @@ impl Parser {
     pub fn verif_macros(&self) -> &HashMap<usize, String> {
         &self.macros
     }
+
+    /// Verification hook: coarse parser state. 0 = ground, 1 = inside an escape / control sequence,
+    /// 2 = inside an OSC string, 3 = inside a DCS / APS string, 4 = inside an ANSI music string.
+    pub fn verif_state_code(&self) -> u8 {
+        match self.state {
+            EngineState::Default => 0,
+            EngineState::ReadOSCSequence | EngineState::ReadOSCSequenceEscape => 2,
+            EngineState::RecordDCS | EngineState::RecordDCSEscape | EngineState::ReadPossibleMacroInDCS(_) | EngineState::ReadAPS | EngineState::ReadAPSEscape => 3,
+            EngineState::ParseAnsiMusic(_) => 4,
+            _ => 1,
+        }
+    }
 }
